@@ -92,6 +92,7 @@ class WithSweeps:
         self.sub_broken = []       # broken ties found by the sweeps (no witness)
         self.sub_counts = {"evaluations": 0, "distinct_nontrivial": 0}
         self.sub_samples = []
+        self.sub_bodies = []
 
     def note_broken(self, what):
         self.sub_broken.append(what)
@@ -195,9 +196,22 @@ def main(spec, argv):
                 L.violation(pid, p, no_input=True)
                 return 1
             return 0
-        rc = casecheck._main(spec, tier, replay, t0)
+        orig_extra = type(spec).extra_checks
+
+        def recording_extra(tier_, wd_, cases_):
+            ev_, bodies_ = orig_extra(spec, tier_, wd_, cases_)
+            spec.sub_bodies = list(bodies_)
+            return ev_, bodies_
+        spec.extra_checks = recording_extra
+        try:
+            rc = casecheck._main(spec, tier, replay, t0)
+        finally:
+            del spec.extra_checks
         if rc == 2:
             return rc
+        # every sweep finding gets its own replay file, also when the world check reported first
+        for b in spec.sub_bodies:
+            L.log("[sweep %s] violation: %s replay=%s" % (b.get("check"), b.get("what"), L.write_replay(pid, b)))
         if rc == 0 and spec.sub_broken:
             p = L.write_replay(pid, {"property": pid, "seed": L.seed(), "tier": tier, "kind": "tie-broken",
                                      "broken": spec.sub_broken,
